@@ -35,7 +35,8 @@ def factorize_arrow_arr(
     if isinstance(arr, pa.ChunkedArray):
         arr = arr.combine_chunks()
 
-    codes = arr.indices.to_numpy(zero_copy_only=False)
+    # a null key gets the null code -1 (to_numpy would turn the codes into floats with NaN)
+    codes = arr.indices.fill_null(-1).to_numpy(zero_copy_only=False)
     labels = pd.Index(arr.dictionary.to_pandas(types_mapper=pd.ArrowDtype), name=name)
 
     return codes, labels
